@@ -1,0 +1,455 @@
+//go:build verif
+// +build verif
+
+package cgen
+
+// Exports for the /verif C05 check (coroutine results do not depend on where
+// the I/O streams are split). Compiled only with -tags verif; nothing here is
+// reachable from the regular build.
+//
+//   - VerifC05Liveness runs the real findVars (liveness.go) on every coroutine
+//     of a parsed and type-checked package and also serialises, by a walk of
+//     its own over the AST, exactly what the analysis looks at: the abstract
+//     statement language of /verif/lean/WuffsVerif/Model/Liveness.lean.
+//   - VerifC05ReadMethods lists builtin.go's readMethods table.
+//   - VerifC05Do is Do, with the generated program returned instead of being
+//     written to os.Stdout.
+//
+// Grammar of the abstract body (space separated tokens):
+//
+//	block := "[" stmt* "]"
+//	ex    := "(" "E" ("n" | "c" | "ci") varIndex* ")"
+//	stmt  := "(" "A" ("e"|"q"|"o") ("-" | "(" "V" i ")" | ex) ex ")"   assignment =, =?, other
+//	       | "(" "X" ex ")"                                            expression statement
+//	       | "(" "M" ex (ex|"-") (ex|"-") block ")"                    io_bind / io_limit / io_forget_history
+//	       | "(" "I" ex block block ")"                                if (an else-if is an else block holding one I)
+//	       | "(" "J" ("b"|"c") depth ")"                               break / continue, depth 0 = innermost loop
+//	       | "(" "R" ("r"|"y") ex ")"                                  return / yield
+//	       | "(" "D" i ")"                                             var
+//	       | "(" "W" ("t"|"f") ex block ")"                            while (t: `while true`)
+//
+// "c" marks a coroutine call (a coroutine suspension point), "ci" one whose
+// receiver is an I/O or token type.
+
+import (
+	"fmt"
+	"io"
+	"os"
+	"strings"
+	"sync"
+
+	a "github.com/google/wuffs/lang/ast"
+	t "github.com/google/wuffs/lang/token"
+)
+
+// VerifC05LiveFunc is one coroutine as the liveness analysis sees it.
+type VerifC05LiveFunc struct {
+	Name       string   // "receiver.func"
+	Err        string   // non-empty: findVars or the serialiser failed
+	NumCSPs    int      // coroutine calls + yields
+	NumLoops   int      // while statements
+	Vars       []string // local variables, in livenesses-index order
+	Resumables []int    // sorted indexes with varResumables[name] == true
+	PtrVars    []int    // sorted indexes of locals whose type HasPointers (never saved, see var.go)
+	Body       string   // the abstract body
+}
+
+// VerifC05ReadMethod is one row of readMethods.
+type VerifC05ReadMethod struct {
+	Name       string
+	Size       uint8
+	N          uint8
+	Endianness uint8
+}
+
+// VerifC05ReadMethods returns the non-empty rows of readMethods, in table order.
+func VerifC05ReadMethods() (ret []VerifC05ReadMethod) {
+	for i, p := range readMethods {
+		if p.n == 0 {
+			continue
+		}
+		ret = append(ret, VerifC05ReadMethod{
+			Name:       (readMethodsBase + t.ID(i)).Str(&builtInTokenMap),
+			Size:       p.size,
+			N:          p.n,
+			Endianness: p.endianness,
+		})
+	}
+	return ret
+}
+
+var verifC05DoMu sync.Mutex
+
+// VerifC05Do runs Do (what `wuffs-c gen <args>` runs) and returns what it
+// wrote to os.Stdout. Not safe to interleave with other writers of os.Stdout.
+func VerifC05Do(args []string) ([]byte, error) {
+	verifC05DoMu.Lock()
+	defer verifC05DoMu.Unlock()
+
+	pr, pw, err := os.Pipe()
+	if err != nil {
+		return nil, err
+	}
+	type result struct {
+		b   []byte
+		err error
+	}
+	ch := make(chan result, 1)
+	go func() {
+		b, err := io.ReadAll(pr)
+		ch <- result{b, err}
+	}()
+
+	saved := os.Stdout
+	os.Stdout = pw
+	doErr := func() (err error) {
+		defer func() {
+			if x := recover(); x != nil {
+				err = fmt.Errorf("panic: %v", x)
+			}
+		}()
+		return Do(args)
+	}()
+	os.Stdout = saved
+	pw.Close()
+	res := <-ch
+	pr.Close()
+
+	if doErr != nil {
+		return nil, doErr
+	}
+	if res.err != nil {
+		return nil, res.err
+	}
+	return res.b, nil
+}
+
+// VerifC05Liveness analyses every coroutine of the package.
+func VerifC05Liveness(tm *t.Map, files []*a.File) (ret []VerifC05LiveFunc) {
+	for _, file := range files {
+		for _, n := range file.TopLevelDecls() {
+			if n.Kind() != a.KFunc {
+				continue
+			}
+			f := n.AsFunc()
+			if !f.Effect().Coroutine() {
+				continue
+			}
+			ret = append(ret, verifC05LiveFunc(tm, files, f))
+		}
+	}
+	return ret
+}
+
+func verifC05LiveFunc(tm *t.Map, files []*a.File, f *a.Func) (ret VerifC05LiveFunc) {
+	ret.Name = f.FuncName().Str(tm)
+	if r := f.Receiver(); !r.IsZero() {
+		ret.Name = r.Str(tm) + "." + ret.Name
+	}
+	defer func() {
+		if x := recover(); x != nil {
+			ret.Err = fmt.Sprintf("panic: %v", x)
+		}
+	}()
+
+	// The real analysis.
+	g := &gen{tm: tm, files: files}
+	g.currFunk = funk{astFunc: f}
+	if err := g.findVars(); err != nil {
+		ret.Err = "findVars: " + err.Error()
+		return ret
+	}
+	for i, v := range g.currFunk.varList {
+		ret.Vars = append(ret.Vars, v.Name().Str(tm))
+		if g.currFunk.varResumables[v.Name()] {
+			ret.Resumables = append(ret.Resumables, i)
+		}
+		if v.XType().HasPointers() {
+			ret.PtrVars = append(ret.PtrVars, i)
+		}
+	}
+
+	// The serialiser: its own walk, its own variable numbering.
+	s := &verifC05Serialiser{tm: tm, vars: map[t.ID]int{}}
+	for _, o := range f.Body() {
+		if o.Kind() != a.KVar {
+			break
+		}
+		s.vars[o.AsVar().Name()] = len(s.vars)
+	}
+	if len(s.vars) != len(ret.Vars) {
+		ret.Err = "serialiser: a local variable is declared twice"
+		return ret
+	}
+	if err := s.block(f.Body()); err != nil {
+		ret.Err = "serialiser: " + err.Error()
+		return ret
+	}
+	ret.NumCSPs = s.numCSPs
+	ret.NumLoops = s.numLoops
+	ret.Body = s.b.String()
+	return ret
+}
+
+type verifC05Serialiser struct {
+	tm       *t.Map
+	vars     map[t.ID]int
+	loops    []a.Loop // enclosing while loops, outermost first
+	b        strings.Builder
+	numCSPs  int
+	numLoops int
+}
+
+func (s *verifC05Serialiser) tok(x string) {
+	if s.b.Len() > 0 {
+		s.b.WriteByte(' ')
+	}
+	s.b.WriteString(x)
+}
+
+func (s *verifC05Serialiser) mentions(n *a.Expr, out *[]int, depth int) error {
+	if n == nil {
+		return nil
+	}
+	if depth > a.MaxBodyDepth+1 {
+		return fmt.Errorf("expression too deep")
+	}
+	for _, o := range []*a.Node{n.LHS(), n.MHS(), n.RHS()} {
+		if o != nil && o.Kind() == a.KExpr {
+			if err := s.mentions(o.AsExpr(), out, depth+1); err != nil {
+				return err
+			}
+		}
+	}
+	for _, o := range n.Args() {
+		switch o.Kind() {
+		case a.KArg:
+			if err := s.mentions(o.AsArg().Value(), out, depth+1); err != nil {
+				return err
+			}
+		case a.KExpr:
+			if err := s.mentions(o.AsExpr(), out, depth+1); err != nil {
+				return err
+			}
+		default:
+			return fmt.Errorf("unrecognized arg kind")
+		}
+	}
+	if n.Operator() == 0 {
+		if i, ok := s.vars[n.Ident()]; ok {
+			*out = append(*out, i)
+		}
+	}
+	return nil
+}
+
+func (s *verifC05Serialiser) ex(n *a.Expr) error {
+	if n == nil {
+		return fmt.Errorf("missing expression")
+	}
+	flag := "n"
+	if n.Effect().Coroutine() {
+		s.numCSPs++
+		flag = "c"
+		recv := n.LHS().AsExpr().LHS().AsExpr()
+		if recv.MType().IsIOTokenType() {
+			flag = "ci"
+		}
+	}
+	vs := []int(nil)
+	if err := s.mentions(n, &vs, 0); err != nil {
+		return err
+	}
+	s.tok("(")
+	s.tok("E")
+	s.tok(flag)
+	for _, v := range vs {
+		s.tok(fmt.Sprint(v))
+	}
+	s.tok(")")
+	return nil
+}
+
+func (s *verifC05Serialiser) exOpt(n *a.Expr) error {
+	if n == nil {
+		s.tok("-")
+		return nil
+	}
+	return s.ex(n)
+}
+
+func (s *verifC05Serialiser) block(block []*a.Node) error {
+	s.tok("[")
+	for _, o := range block {
+		if err := s.stmt(o); err != nil {
+			return err
+		}
+	}
+	s.tok("]")
+	return nil
+}
+
+func (s *verifC05Serialiser) ifStmt(n *a.If) error {
+	s.tok("(")
+	s.tok("I")
+	if err := s.ex(n.Condition()); err != nil {
+		return err
+	}
+	if err := s.block(n.BodyIfTrue()); err != nil {
+		return err
+	}
+	if ei := n.ElseIf(); ei != nil {
+		s.tok("[")
+		if err := s.ifStmt(ei); err != nil {
+			return err
+		}
+		s.tok("]")
+	} else if err := s.block(n.BodyIfFalse()); err != nil {
+		return err
+	}
+	s.tok(")")
+	return nil
+}
+
+func (s *verifC05Serialiser) stmt(o *a.Node) error {
+	switch o.Kind() {
+	case a.KAssign:
+		n := o.AsAssign()
+		s.tok("(")
+		s.tok("A")
+		switch n.Operator() {
+		case t.IDEq:
+			s.tok("e")
+		case t.IDEqQuestion:
+			s.tok("q")
+		default:
+			s.tok("o")
+		}
+		if lhs := n.LHS(); lhs == nil {
+			s.tok("-")
+		} else if lhs.Operator() == 0 {
+			i, ok := s.vars[lhs.Ident()]
+			if !ok {
+				return fmt.Errorf("unrecognized variable %q", lhs.Ident().Str(s.tm))
+			}
+			s.tok("(")
+			s.tok("V")
+			s.tok(fmt.Sprint(i))
+			s.tok(")")
+		} else if err := s.ex(lhs); err != nil {
+			return err
+		}
+		if err := s.ex(n.RHS()); err != nil {
+			return err
+		}
+		s.tok(")")
+
+	case a.KExpr:
+		s.tok("(")
+		s.tok("X")
+		if err := s.ex(o.AsExpr()); err != nil {
+			return err
+		}
+		s.tok(")")
+
+	case a.KIOManip:
+		n := o.AsIOManip()
+		s.tok("(")
+		s.tok("M")
+		if err := s.ex(n.IO()); err != nil {
+			return err
+		}
+		if err := s.exOpt(n.Arg1()); err != nil {
+			return err
+		}
+		if err := s.exOpt(n.HistoryPosition()); err != nil {
+			return err
+		}
+		if err := s.block(n.Body()); err != nil {
+			return err
+		}
+		s.tok(")")
+
+	case a.KIf:
+		return s.ifStmt(o.AsIf())
+
+	case a.KIterate:
+		return fmt.Errorf("iterate loop is inside a coroutine")
+
+	case a.KJump:
+		n := o.AsJump()
+		depth := -1
+		for i := len(s.loops) - 1; i >= 0; i-- {
+			if s.loops[i] == n.JumpTarget() {
+				depth = len(s.loops) - 1 - i
+				break
+			}
+		}
+		if depth < 0 {
+			return fmt.Errorf("jump target is not an enclosing while loop")
+		}
+		s.tok("(")
+		s.tok("J")
+		switch n.Keyword() {
+		case t.IDBreak:
+			s.tok("b")
+		case t.IDContinue:
+			s.tok("c")
+		default:
+			return fmt.Errorf("unrecognized ast.Jump keyword")
+		}
+		s.tok(fmt.Sprint(depth))
+		s.tok(")")
+
+	case a.KRet:
+		n := o.AsRet()
+		s.tok("(")
+		s.tok("R")
+		switch n.Keyword() {
+		case t.IDReturn:
+			s.tok("r")
+		case t.IDYield:
+			s.tok("y")
+			s.numCSPs++
+		default:
+			return fmt.Errorf("unrecognized ast.Ret keyword")
+		}
+		if err := s.ex(n.Value()); err != nil {
+			return err
+		}
+		s.tok(")")
+
+	case a.KVar:
+		i, ok := s.vars[o.AsVar().Name()]
+		if !ok {
+			return fmt.Errorf("unrecognized variable %q", o.AsVar().Name().Str(s.tm))
+		}
+		s.tok("(")
+		s.tok("D")
+		s.tok(fmt.Sprint(i))
+		s.tok(")")
+
+	case a.KWhile:
+		n := o.AsWhile()
+		s.numLoops++
+		s.tok("(")
+		s.tok("W")
+		if n.IsWhileTrue() {
+			s.tok("t")
+		} else {
+			s.tok("f")
+		}
+		if err := s.ex(n.Condition()); err != nil {
+			return err
+		}
+		s.loops = append(s.loops, a.Loop(n))
+		err := s.block(n.Body())
+		s.loops = s.loops[:len(s.loops)-1]
+		if err != nil {
+			return err
+		}
+		s.tok(")")
+	}
+	// Other kinds (assert, choose) are not looked at by the analysis.
+	return nil
+}
